@@ -51,6 +51,10 @@ for _prop in ('C12', 'C16'):
                                            havoc={'data': Bytes(0, None, mutable=True),
                                                   'self.clf.sent': Fixed([]), 'self.clf.outcomes': Fixed([]),
                                                   'self.clf.answers': Fixed([])}),
+                (EQ, 'While', 2): LoopSpec(invariant=['self.pni == 0 or self.pni == 1', 'len(data) >= 1'],
+                                           havoc={'data': Bytes(0, None, mutable=True),
+                                                  'self.clf.sent': Fixed([]), 'self.clf.outcomes': Fixed([]),
+                                                  'self.clf.answers': Fixed([])}),
                 (EQ, 'While', 1): LoopSpec(invariant=['self.pni == 0 or self.pni == 1', 'len(data) >= 1'],
                                            havoc={'self.pni': Int(), 'data': Bytes(0, None, mutable=True),
                                                   'response': Bytes(0, None, mutable=True),
@@ -120,4 +124,14 @@ contract(T4 + 'IsoDepInitiator.exchange', 'C12',
          name='C12/IsoDep.retransmits-lost-block',
          ensures=[('O-recover.response', 'result == self.clf.payload'),
                   ('O-recover.bn', 'self.pni == old(self.pni)'), ('O-recover.once', 'self.clf.n == 4')],
+         raises={}, max_unroll=12)
+contract(T4 + 'IsoDepInitiator.exchange', 'C12',
+         dict(self=Obj(T4 + 'IsoDepInitiator', miu=10, pni=Int(0, 1), fwt=Const(0.01), delta_fwt=Const(0.0036),
+                       n_retry_ack=Int(1, 5), n_retry_nak=Int(1, 5),
+                       clf=Obj('models.clf_models:IsoWtxInChainScriptClf', _partial=False, pni=Ref('self.pni'),
+                               first=Bytes(1, None, mutable=True), second=Bytes(0, None, mutable=True), n=0)),
+              command=Bytes(1, 10, mutable=True), timeout=None),
+         name='C12/IsoDep.wtx-inside-response-chain',
+         ensures=[('O-chain.response', 'result == self.clf.first + self.clf.second'),
+                  ('O-chain.blocks', 'self.clf.n == 3')],
          raises={}, max_unroll=12)
